@@ -50,6 +50,7 @@ def run(ctx):
     r6_count_mode_write_only(ctx, F)
     r7_sibling_counters(ctx, F)
     r8_same_feeding(ctx, F)
+    r9_replicated_setup(ctx, F)
     ctx.not_decided('equality of the i-th gradual value with the one-shot value for passed_objects(i); number of values; '
                     'final value equals full calculation (arithmetic over runtime values)')
 
@@ -385,29 +386,34 @@ def feeds_by_type(F, fn):
     import arms
     import inline
     from props.C15 import _forwards_process
-    g = inline.inlined(F, fn, depth=2, force=_forwards_process) or fn
+    bodies = [inline.inlined(F, fn, depth=2, force=_forwards_process) or fn]
+    # a feed written as `objects.iter().for_each(|h| skills.process(h, ..))` sits in a closure body of fn
+    for c_ in F.fns:
+        if c_.path.startswith(fn.path + '::{closure'):
+            bodies.append(inline.inlined(F, c_, depth=2, force=_forwards_process) or c_)
     sites = []
-    for bi, t in g.calls():
-        if t['func'].get('name') != 'process' or not t['args']:
-            continue
-        cp = t['func'].get('path') or ''
-        cal = F.fn(cp)
-        if (cal is not None and _forwards_process(cal)) or ('::skills::' not in cp and 'StrainSkill' not in cp):
-            continue
-        facts = set()
-        import re as _re
-        # the container the fed skill lives in (`self.skills`, a local `skills`, `OsuSkills::new(..)`): conditions on it are compared modulo how each path names it
-        P = prov.prov_of(g)
-        rv_ = prov.strip(P.call_args(bi)[0], names=set())
-        while rv_[0] in ('ref', 'mut', 'deref') and len(rv_) > 1 and isinstance(rv_[1], tuple):
-            rv_ = prov.strip(rv_[1], names=set())
-        container = prov.show(rv_[1], maxdepth=12) if rv_[0] == 'field' else None
-        for c, lab in arms.bool_facts(g, bi):
-            txt = prov.show(prov.strip(c, names={'likely', 'unlikely'}), maxdepth=12)
-            if container and container in txt:
-                txt = txt.replace(container, '$skills')
-            facts.add('%s = %s' % (_re.sub(r'param#\d+|\(\*?_\d+\)', '_', txt), lab))
-        sites.append((cp, facts))
+    for g in bodies:
+      for bi, t in g.calls():
+          if t['func'].get('name') != 'process' or not t['args']:
+              continue
+          cp = t['func'].get('path') or ''
+          cal = F.fn(cp)
+          if (cal is not None and _forwards_process(cal)) or ('::skills::' not in cp and 'StrainSkill' not in cp):
+              continue
+          facts = set()
+          import re as _re
+          # the container the fed skill lives in (`self.skills`, a local `skills`, `OsuSkills::new(..)`): conditions on it are compared modulo how each path names it
+          P = prov.prov_of(g)
+          rv_ = prov.strip(P.call_args(bi)[0], names=set())
+          while rv_[0] in ('ref', 'mut', 'deref') and len(rv_) > 1 and isinstance(rv_[1], tuple):
+              rv_ = prov.strip(rv_[1], names=set())
+          container = prov.show(rv_[1], maxdepth=12) if rv_[0] == 'field' else None
+          for c, lab in arms.bool_facts(g, bi):
+              txt = prov.show(prov.strip(c, names={'likely', 'unlikely'}), maxdepth=12)
+              if container and container in txt:
+                  txt = txt.replace(container, '$skills')
+              facts.add('%s = %s' % (_re.sub(r'param#\d+|\(\*?_\d+\)', '_', txt), lab))
+          sites.append((cp, facts))
     if not sites:
         return None
     common = set.intersection(*[f_ for _, f_ in sites])
@@ -442,3 +448,140 @@ def r8_same_feeding(ctx, F, rule='C02-R8'):
                     bad='%s: the skill(s) %s are fed under different conditions by the one-shot calculation (%s) and by the gradual next() (%s): the gradual values stop being '
                         'the values of the prefix' % (mode, ', '.join(short(k) for k in diff), '; '.join(str(a.get(k)) for k in diff)[:200], '; '.join(str(b.get(k)) for k in diff)[:200]))
     ctx.floor(rule, n, 8, 'skill types fed by the one-shot calculations (4 + 4 + 1 + 1 today)')
+
+
+# ---- R9: the numbers both set-ups compute are computed by the same expression (seeds C02-8 / C03-8: the catcher-width reduction capped in one replica only)
+def _mapish(fn, v, d=0):
+    """v IS the (converted, possibly preprocessed) map — however this function got hold of it"""
+    v = prov.strip(v, names=set())
+    if d > 14:
+        return False
+    k = v[0]
+    if k == 'param':
+        ins = fn.j.get('inputs') or []
+        return 1 <= v[1] <= len(ins) and (ins[v[1] - 1].get('to_adt') or ins[v[1] - 1].get('adt') or '').endswith('beatmap::Beatmap')
+    if k == 'mut':
+        return _mapish(fn, v[1], d + 1)
+    if k == 'call':
+        name = v[1].get('name')
+        if name == 'convert_ref':
+            return True
+        if name in ('deref', 'deref_mut', 'to_mut', 'borrow', 'as_ref', 'into_owned', 'clone', 'branch') and v[2]:
+            return _mapish(fn, v[2][0], d + 1)
+        if v[1].get('local') and 'Beatmap' in str(v[1].get('output') or v[1].get('path') or '') and v[2]:
+            return any(_mapish(fn, a, d + 1) for a in v[2])
+        return False
+    if k == 'field' and str(v[2]) == '0':
+        inner = prov.strip(v[1], names=set())
+        if inner[0] == 'variant' and inner[2] in ('Continue', 'Ok', 'Some', 'Borrowed', 'Owned'):
+            return _mapish(fn, inner[1], d + 1)
+        return False
+    if k == 'variant':
+        return _mapish(fn, v[1], d + 1)
+    if k == 'agg' and len(v) > 4 and v[3] in ('Ok', 'Some', 'Continue', 'Borrowed', 'Owned') and isinstance(v[4], dict) and '0' in v[4]:
+        return _mapish(fn, v[4]['0'], d + 1)
+    if k == 'phi':
+        def _failure(a):
+            a = prov.strip(a, names=set())
+            return (a[0] == 'call' and a[1].get('name') == 'from_residual') or (a[0] == 'agg' and len(a) > 3 and a[3] in ('Err', 'Break', 'None'))
+        alts = [a for a in v[1] if not _failure(a)]
+        return bool(alts) and all(_mapish(fn, a, d + 1) for a in alts)
+    return False
+
+
+def _skel(fn, v, d=0):
+    """the expression with every way of naming the map collapsed to MAP and parameters named by their type"""
+    v = prov.strip(v, names=set())
+    if d > 40:
+        return '..'
+    if _mapish(fn, v):
+        return 'MAP'
+    k = v[0]
+    if k == 'param':
+        ins = fn.j.get('inputs') or []
+        if 1 <= v[1] <= len(ins):
+            return '<%s>' % str(ins[v[1] - 1].get('to_adt') or ins[v[1] - 1].get('adt') or ins[v[1] - 1].get('s')).split('::')[-1]
+        return 'param'
+    if k == 'mut':
+        return _skel(fn, v[1], d + 1)
+    if k == 'field':
+        return '%s.%s' % (_skel(fn, v[1], d + 1), v[2])
+    if k == 'variant':
+        return '(%s as %s)' % (_skel(fn, v[1], d + 1), v[2])
+    if k == 'binop':
+        return '%s(%s, %s)' % (v[1], _skel(fn, v[2], d + 1), _skel(fn, v[3], d + 1))
+    if k == 'cast':
+        return 'cast(%s)' % _skel(fn, v[2], d + 1)
+    if k == 'call':
+        return '%s(%s)' % ((v[1].get('path') or v[1].get('name') or '?'), ', '.join(_skel(fn, a, d + 1) for a in v[2]))
+    if k == 'phi':
+        return 'phi(%s)' % ' | '.join(sorted(set(_skel(fn, a, d + 1) for a in v[1])))
+    return prov.show(v, maxdepth=6)
+
+
+def _norm_arg(fn, v, F=None):
+    if F is not None:
+        # helpers, set-up structs and second-step constructors on the way are read through: what is compared is the expression over (difficulty, map)
+        import combin
+        v = prov.inline_all(F, v, depth=3, _seen=(fn.path,), only=lambda f_: f_.get('local') and not f_.get('trait') and
+                            f_.get('name') not in ('convert_ref', 'attributes', 'difficulty', 'build', 'hit_windows', 'get_clock_rate', 'get_mods', 'get_passed_objects'))
+        v = combin.expand(F, v)
+    return _skel(fn, v)
+
+
+def r9_replicated_setup(ctx, F, rule='C02-R9'):
+    """The one-shot entry (`<mode>::difficulty::difficulty` with `DifficultyValues::calculate` inlined) and the gradual constructor both prepare the same calculation: they
+    call the same constructors of the mode's difficulty module (skills, difficulty objects, catcher width ..).  Every NUMERIC argument (float / integer / bool
+    parameter of the callee) that both hand to the same callee must be the same expression over (difficulty, converted map) — a formula ported into one replica only
+    makes the gradual values differ from the prefix values for the inputs where the formulas part."""
+    import inline
+    from common import MODES, CAP
+    n = 0
+    for mode in MODES:
+        ent = F.fn('%s::difficulty::difficulty' % mode)
+        B = F.method('%s::difficulty::gradual::%sGradualDifficulty' % (mode, CAP[mode]), 'new', inherent_only=True)
+        if ent is None or B is None:
+            ctx.violation(rule, 'anchor-missing:' + mode, 'one-shot entry / gradual constructor of %s not found' % mode)
+            continue
+        A = inline.inlined(F, ent, depth=1, force=lambda h: h.path.endswith('DifficultyValues::calculate')) or ent
+        ctx.saw(ent)
+        ctx.saw(B)
+
+        def numeric_args(fn):
+            P = prov.prov_of(fn)
+            out = {}
+            for bi, t in fn.calls():
+                cp = t['func'].get('path') or ''
+                if not t['func'].get('local') or not cp.startswith(mode + '::') or cp.startswith(mode + '::convert'):
+                    continue
+                g = F.fn(cp)
+                if g is None:
+                    continue
+                ins = g.j.get('inputs') or []
+                args = P.call_args(bi)
+                row = [(i, (ins[i].get('s') or '?'), _norm_arg(fn, a, F)) for i, a in enumerate(args) if i < len(ins) and ins[i].get('k') in ('float', 'int', 'uint', 'bool')]
+                if row:
+                    out.setdefault(cp, []).append(row)
+            return out
+        a, b = numeric_args(A), numeric_args(B)
+        for cp in sorted(set(a) & set(b)):
+            if len(a[cp]) != 1 or len(b[cp]) != 1:
+                continue                 # called several times on one side: no unique pairing
+            for (i, ty, x), (_, _, y) in zip(a[cp][0], b[cp][0]):
+                if 'get_passed_objects' in x or 'get_passed_objects' in y:
+                    continue             # the one-shot calculation is cut at passed_objects, the gradual one is not
+                n += 1
+                key = '%s:%s:arg%d' % (mode, cp.split('::')[-2] + '::' + cp.split('::')[-1], i)
+                ctx.require(x == y, rule, key, 'one-shot set-up and gradual constructor of %s hand %s the same expression as argument %d (%s)' % (mode, cp.split('::', 1)[-1], i, ty), B.where(),
+                            bad='%s: argument %d (%s) of %s is computed by different expressions in the one-shot set-up (`%s`) and in the gradual constructor (`%s`): a formula that was '
+                                'changed in one replica only — the gradual values differ from the prefix values wherever the two formulas part' % (
+                                    mode, i, ty, cp, _first_diff(x, y)[0], _first_diff(x, y)[1]))
+    ctx.floor(rule, n, 4, 'numeric arguments handed to shared callees by both set-ups (13 today)')
+
+
+def _first_diff(x, y):
+    i = 0
+    while i < min(len(x), len(y)) and x[i] == y[i]:
+        i += 1
+    lo = max(0, i - 40)
+    return x[lo:i + 60], y[lo:i + 60]
